@@ -3,7 +3,7 @@
 Oracle (closed form from the cells of the drawing): exactly one circle element and nothing else; radius =
 (n-1)/2 cells for an n-cell-wide drawing (n/2 when the left-most character is a slash); horizontal extent =
 extent of the drawing; every character's cell centre within one cell diagonal of the circle.
-The 22 drawings are frozen in data/circle-catalogue.txt and cross-checked against the table of the tree.
+The 22 drawings are frozen in data/circle-catalogue.txt; whether the table of the tree equals them is recorded.
 """
 import math
 import os
@@ -17,7 +17,7 @@ LEVEL = 'exploration'
 RULE = ('the 22 catalogue drawings x offsets (0..60, 0..40) x optional unrelated content at least 2 cells away; '
         'non-trivial = distinct (drawing, offset, companion)')
 ASSUMPTIONS = ['"about one cell" = one cell diagonal (sqrt(8^2+16^2) px at scale 8)',
-               'the frozen catalogue (data/circle-catalogue.txt) is the documented one; a tree whose table differs from it is reported']
+               'the frozen catalogue (data/circle-catalogue.txt) is the documented one; whether the table of the tree equals it is recorded in the evidence']
 FLOORS = {'quick': {'distinct_nontrivial': 800, 'drawings_seen': 22}, 'thorough': {'distinct_nontrivial': 50000, 'drawings_seen': 22}}
 DIAG = math.hypot(8, 16)
 
@@ -141,10 +141,11 @@ def execute(run):
     binary = build_driver()
     info = driver_info(binary)
     arts = frozen()
-    if info['ncircles'] != len(arts) or [list(a) for a in info['circles']] != arts:
-        run.violations.append({'case': {'catalogue': 'table of the tree'}, 'signature': None,
-                               'message': 'the circle table of the tree (%d drawings) differs from the documented catalogue (%d drawings)' % (info['ncircles'], len(arts))})
-        run.nviol += 1
+    # the property is about the 22 documented drawings; a tree whose table has more or other drawings is judged
+    # by what it does with those 22 (every one of them is converted below), not by comparing tables
+    run.extra_cov['table_of_the_tree'] = ('same %d drawings as the documented catalogue' % len(arts)
+                                          if [list(a) for a in info['circles']] == arts else
+                                          '%d drawings, differs from the documented catalogue' % info['ncircles'])
     rng = rng_for(run.seed, ID, 'offsets')
     shards = []
     for idx in range(len(arts)):
